@@ -67,7 +67,9 @@ ob("O-C05-length", ["C05"], J, "c05_num_length", "Num::length (absolute value) i
 
 # point obligations: the big-integer arms at concrete boundary values
 ob("O-C08-big", ["C08"], J, "c08_big_points", "points: a big integer against +/-infinity and a small float in both argument orders; 5 as Int / BigInt / Float and 0 as Int / BigInt mutually equal, ordered Equal and hashing alike; big integers beyond the machine range ordered among themselves and against isize::MAX / MIN", [NUM + "Num::cmp", NUM + "Num::eq", NUM + "Num::hash"], label="point", kind="point", composes_dependency=True)
-ob("O-C09-big-obs", ["C09", "C10"], J, "c09_big_observers", "points: is_int / as_isize / as_f64 / as_pos_usize / length on big integers 5, -1, 0 (zero is not negative), 2^63, -2^63-1, 2^70 agree with the machine-integer answers", [NUM + "Num::as_isize", NUM + "Num::as_pos_usize", NUM + "Num::as_f64", NUM + "Num::length"], label="point", kind="point", composes_dependency=True)
+ob("O-C09-big-obs", ["C09", "C10"], J, "c09_big_observers", "for every big integer up to 128 bits: is_int; as_isize is Some(value) iff it fits a machine integer; as_pos_usize is (value >= 0, |value|) with zero non-negative, None beyond usize; a big integer that fits agrees with the machine integer of the same value (equal integers behave identically however stored)", [NUM + "Num::is_int", NUM + "Num::as_isize", NUM + "Num::as_pos_usize"], composes_dependency=True)
+ob("O-C09-from-integral", ["C09", "C14"], J, "c09_from_integral", "Num::from_integral / Val::from(usize): a machine integer when the value fits, else the big integer of exactly that value, for every u64, i128 and usize", [NUM + "Num::from_integral", LIB + "Val::from<usize>"], composes_dependency=True)
+ob("O-C09-big-points", ["C09"], J, "c09_big_points", "points: as_f64 of big 5 / -1, length (absolute value) of big -1 and -2^63-1, 2^70 is beyond every machine-sized observer", [NUM + "Num::as_f64", NUM + "Num::length"], label="point", kind="point", composes_dependency=True)
 ob("O-C09-big-arith", ["C09"], J, "c09_big_arith", "points: MAX+1, MIN-1, MIN+(-1), -MIN, MAX-(-1) take the exact big-integer value through the real fall-back; Int-BigInt, BigInt-Int, Int+BigInt, BigInt+Int, BigInt-BigInt, -BigInt with the operands in the order written (num-bigint executed on concrete operands)", [NUM + "Num::add", NUM + "Num::sub", NUM + "Num::neg", NUM + "int_or_big"], label="point", kind="point", composes_dependency=True, stubs=["_addcarry_u64", "_subborrow_u64"])
 
 # ------------------------------------------------------------------------------------ C07 (writer half)
@@ -138,8 +140,8 @@ OBS.append(dict(id="O-C01-env", properties=["C01"], backend="verus", spec="verus
 
 # ------------------------------------------------------------------------------------ jaq-fmts
 FM = "jaq-fmts/src/"
-ob("O-C14-cbor-neg", ["C14", "C05"], F, "c14_cbor_decode_negative", "CBOR decode: the real parse maps Header::Negative(n) to the machine integer -1 - n for every n <= i64::MAX (beyond that the value is a big integer: num-bigint, not decided)", [FM + "read/cbor.rs::parse"])
-ob("O-C14-cbor-pos", ["C14", "C05"], F, "c14_cbor_decode_positive", "CBOR decode: the real parse maps Header::Positive(n) to the machine integer n for every n <= i64::MAX", [FM + "read/cbor.rs::parse"])
+ob("O-C14-cbor-neg", ["C14", "C05"], F, "c14_cbor_decode_negative", "CBOR decode: the real parse maps Header::Negative(n) to the integer -1 - n for every 64-bit argument n - a machine integer when it fits, else the big integer of that value", [FM + "read/cbor.rs::parse"], composes_dependency=True)
+ob("O-C14-cbor-pos", ["C14", "C05"], F, "c14_cbor_decode_positive", "CBOR decode: the real parse maps Header::Positive(n) to the integer n for every 64-bit argument n - a machine integer when it fits, else the big integer of that value", [FM + "read/cbor.rs::parse"])
 CFG = {
     "trusted_base": [
         "Kani 0.68.0 (MIR->GOTO translation of the pinned nightly's core/alloc)",
@@ -210,7 +212,7 @@ CFG = {
         },
         "C14": {
             "level": "other",
-            "explanation": "CBOR integer kernel, reader side: the arithmetic the real parse applies to the two integer major types (n -> n, n -> -1 - n via `neg as i128 ^ !0`) is proved exact for every argument that yields a machine integer, one harness per header variant. Loop-free; complete for that function and domain. The writer side (encode of a machine integer through ciborium-ll) did not finish in CBMC (5 attempts: symbolic execution walks every arm of the recursive encode) and is not claimed.",
+            "explanation": "CBOR integer kernel, reader side: the arithmetic the real parse applies to the two integer major types (n -> n, n -> -1 - n via `neg as i128 ^ !0`) is proved exact for every 64-bit argument (machine or big integer result), one harness per header variant. Loop-free; complete for that function and domain. The writer side (encode of a machine integer through ciborium-ll) did not finish in CBMC (5 attempts: symbolic execution walks every arm of the recursive encode) and is not claimed.",
             "not_decided": "CBOR encode (writer side) and therefore the round trip itself; YAML (document structure, tags, anchors, plain-scalar quoting: must_quote + resolver on symbolic strings did not finish in 50 min), TOML keys and tables (toml-span), XML (xmlparser), CSV / TSV (aho-corasick), CBOR strings, floats, containers, big integers (num-bigint), --from / --to, well-formedness for independent readers",
             "assumptions": ["ciborium-ll's Header values are taken as given (the decoder that produces them is not verified)"],
         },
